@@ -242,21 +242,47 @@ def firstMatchAst {δ : Type} (S : Sem δ) : Prog → δ → Bool → δ × Bool
       | .mustRules => firstMatchAst S rs fb true
     else firstMatchAst S rs fb must
 
+/-- the function name the user-level name stands for (`aliasing` = the pipeline has an alias stage). -/
+def preName (aliasing : Bool) (n : String) : String := if aliasing then aliasName n else n
+
+/-- the parameter a user-level parameter of function `n` (canonical name) stands for. -/
+def preParam (aliasing : Bool) (n : String) (p : Param) : Param :=
+  if aliasing ∧ n = "domain" then { p with key := aliasKey p.key } else p
+
 /-- The meaning of one value *as the user wrote it*: `dport`/`dip` are `port`/`ip`, `domain` keys
 `""`/`domain`/`contains` are `suffix`/`suffix`/`keyword`, and a geodata reference stands for the
 alternatives the file lists. -/
 def userAtom {δ : Type} (S : Sem δ) (g : Geo) (aliasing : Bool) (fname : String) (p : Param) : Bool :=
-  let n := if aliasing then aliasName fname else fname
-  let p' : Param := if aliasing ∧ n = "domain" then { p with key := aliasKey p.key } else p
-  match datParam g n p' with
-  | some ps => ps.any (S.atom n)
+  match datParam g (preName aliasing fname) (preParam aliasing (preName aliasing fname) p) with
+  | some ps => ps.any (S.atom (preName aliasing fname))
   | none => false
 
 def userSem {δ : Type} (S : Sem δ) (g : Geo) (aliasing : Bool) : Sem δ :=
   { atom := userAtom S g aliasing
-    guard := fun n => S.guard (if aliasing then aliasName n else n)
-    emptyVal := fun n => S.emptyVal (if aliasing then aliasName n else n)
+    guard := fun n => S.guard (preName aliasing n)
+    emptyVal := fun n => S.emptyVal (preName aliasing n)
     parseOut := S.parseOut }
+
+/-! ## Side conditions that appear in the property statements -/
+
+/-- What `config_parser` guarantees of every rule list it produces: every rule has at least one
+function and every function at least one parameter (`f()` is "empty parameter list is not
+supported", a rule without a function is a syntax error; the harness re-checks both on every run). -/
+def ParserWF (rs : Prog) : Prop := ∀ r ∈ rs, r.funcs ≠ [] ∧ ∀ f ∈ r.funcs, f.params ≠ []
+
+/-- every function of the rule either has a parameter or a call without parameters is read as the
+empty disjunction (`false`) by the backend. -/
+def emptyOkR {δ : Type} (S : Sem δ) (r : Rule) : Bool :=
+  r.funcs.all fun f => !f.params.isEmpty || !S.emptyVal f.name
+
+def emptyOk {δ : Type} (S : Sem δ) (p : Prog) : Bool := p.all (emptyOkR S)
+
+/-- The backends built on `RulesBuilder` (traffic, DNS request, DNS response): no per-function guard,
+and a call without parameters never reaches the matcher (it is a build error), so reading it as the
+empty disjunction is vacuous. -/
+structure MatchSetSem {δ : Type} (S : Sem δ) : Prop where
+  guard : ∀ n, S.guard n = true
+  emptyVal : ∀ n, S.emptyVal n = false
 
 /-! ## `RulesBuilder.Apply`: lowering to match sets -/
 
